@@ -15,7 +15,7 @@ from . import common
 from .common import run_tlc, tlc_must_pass, MachineryError, SPEC
 
 SPEC_DIR = os.path.join(SPEC, 'life')
-MUTATIONS = ('latch_after_success', 'export_emits', 'tick_ignores_term', 'start_keeps_term')
+MUTATIONS = ('latch_after_success', 'export_emits', 'tick_ignores_term', 'start_keeps_term', 'terminal_without_start')
 TERMINAL = ('COMPLETE', 'ABORT', 'FAIL')
 
 
@@ -110,6 +110,8 @@ class Rig:
                 em.emit_complete()
             elif what == 'run_over':
                 pass
+            elif what == 'early_complete':
+                em.emit_complete()
             else:
                 raise MachineryError(f'unknown main call {what}')
         elif who == 'hb':
